@@ -4,7 +4,7 @@ use crate::engine::Probe;
 use crate::report::{Diag, parse_diags};
 use serde::{Deserialize, Serialize};
 
-#[derive(Clone, Copy, Debug, PartialEq, Eq, Serialize, Deserialize)]
+#[derive(Clone, Copy, Debug, PartialEq, Eq, Hash, Serialize, Deserialize)]
 pub enum Host {
     Sh,
     Py,
